@@ -1,5 +1,5 @@
 import CffiVerif.Proofs.CName
-import CffiVerif.Proofs.TypeParser
+import CffiVerif.Proofs.TypeParserFull
 import CffiVerif.Props.C07
 
 /-!
@@ -13,13 +13,12 @@ type-string parser (`Model/TypeParser.lean`):
   stay inside their buffers, for every type tree (function types included);
 * `py_and_c_getctype_agree`: `FFI.getctype` (api.py, the `'&['` test) and
   `ffi_getctype` (ffi_obj.c, the CT_ARRAY test) build the same string;
-* `getctype_roundtrip` (= `parse_cname_partial` of C07): `typeof(getctype(T)) = T` on the
-  primitive/pointer/array/struct/union/enum fragment; the full statement with function pointer
-  types (`∀ ctx T, WF ctx T → parseType ctx (getctypeC T []) = .ok T`) is covered by the
-  correspondence run only;
-* `getctype_decl`: `typeof(getctype(T, x)) = x applied to T` for declarator texts
-  `*…*`, `[N]…[M]` and their combination `*…*[N]…[M]`, on the
-  primitive/pointer/array/struct/union/enum fragment.
+* `getctype_roundtrip` (= `parse_cname` of C07): `typeof(getctype(T)) = T` for every
+  well-formed type of the full language, function pointer types included;
+* `getctype_decl`: `typeof(getctype(T, x)) = x applied to T` for every well-formed `T` and
+  every declarator text `x` built from `*`, `[N]`, grouping parentheses and function suffixes
+  `(*…)(args)`; `getctype_decl_py` the same through the Python implementation;
+  `…_partial` / `getctype_decl_stars_brackets` are the earlier forms, now corollaries.
 -/
 namespace CffiVerif.C08
 open CffiVerif.CName CffiVerif.TypeParser
@@ -48,35 +47,72 @@ example : '&' ∉ (cname (.ptr (.arr (.prim "int".toList) (some 3)))).1 := by de
 example : getctypeC (.arr (.prim "int".toList) (some 3)) " * ".toList = "int(*)[3]".toList := by decide
 example : getctypePy (.arr (.prim "int".toList) (some 3)) " * ".toList = "int(*)[3]".toList := by decide
 
-/-- **`typeof(getctype(T)) = T`** on the fragment without function types: the text
-`ffi.getctype(T)` produces is read back by the C parser as `T`, over every context in which
-`T`'s leaf is declared. -/
-theorem getctype_roundtrip (ctx : Ctx) (F : FTy) (hleaf : WFLeaf ctx F.leaf) (hlens : F.LensOK) :
-    parseType ctx (getctypeC F.toTy []) = .ok F.toTy := by
-  have := getctype_decl_F ctx F hleaf hlens 0 [] (by simp)
-  simpa [declText, applyDecl, applySfx, ptrN] using this
+/-- **`typeof(getctype(T)) = T`** for every well-formed type of the full language (function
+pointer types included), over every context in which `T`'s leaves are declared. -/
+theorem getctype_roundtrip (ctx : Ctx) (T : Ty) (hT : WF ctx T) :
+    parseType ctx (getctypeC T []) = .ok T := by
+  have := getctype_decl_full ctx T hT (.flat 0 []) (by simp [DeclWF, ArrOnly])
+  simpa [dstr, sfxStr, Decl.apply, applySfx, ptrN] using this
 
-/-- **`getctype(T, x)` re-parses to the type `x` denotes on top of `T`** for the declarator
-texts `x = *…*[N]…[M]` (`k ≥ 0` stars followed by any list of bracketed lengths, `[]`
-included): the result is `array N of … array M of k-fold pointer to T`.  The parentheses that
-`ffi_getctype` adds when a `*` is put on an array type are exactly what makes this hold. -/
-theorem getctype_decl (ctx : Ctx) (F : FTy) (hleaf : WFLeaf ctx F.leaf) (hlens : F.LensOK)
+/-- **`getctype(T, x)` re-parses to the type `x` denotes on top of `T`**, for every well-formed
+`T` and every declarator `d` with text `x = dstr d`: stars, bracketed lengths (`[]` included),
+grouping parentheses and function suffixes `(*…)(args)` with well-formed parameter lists
+(fixed, empty, variadic), in any nesting — `*`, `[N]`, `(*)(int)`, `(*[4])(void)`,
+`*(*(*)(char))[2]`, ….  The parentheses `ffi_getctype` adds when a `*` is put on an array type
+are exactly what makes this hold. -/
+theorem getctype_decl (ctx : Ctx) (T : Ty) (hT : WF ctx T) (d : Decl) (hd : DeclWF ctx d) :
+    parseType ctx (getctypeC T (dstr d)) = .ok (d.apply T) :=
+  getctype_decl_full ctx T hT d hd
+
+/-- The same through the Python implementation of `getctype` (names have no `&`). -/
+theorem getctype_decl_py (ctx : Ctx) (T : Ty) (hT : WF ctx T) (d : Decl) (hd : DeclWF ctx d)
+    (h : '&' ∉ (cname T).1) : parseType ctx (getctypePy T (dstr d)) = .ok (d.apply T) := by
+  rw [py_and_c_getctype_agree T _ h]; exact getctype_decl ctx T hT d hd
+
+/-- Earlier forms, now corollaries: stars and bracketed lengths, on any well-formed type … -/
+theorem getctype_decl_stars_brackets (ctx : Ctx) (T : Ty) (hT : WF ctx T)
+    (k : Nat) (lens : List (Option Nat)) (hl : ∀ n, some n ∈ lens → n ≤ maxSsize) :
+    parseType ctx (getctypeC T (declText k lens)) = .ok (applyDecl k lens T) := by
+  rw [declText_eq_dstr]
+  exact getctype_decl ctx T hT (.flat k (lens.map Suffix.arr)) (arrOnly_map lens hl)
+
+/-- … and on the fragment without function types. -/
+theorem getctype_roundtrip_partial (ctx : Ctx) (F : FTy) (hleaf : WFLeaf ctx F.leaf) (hlens : F.LensOK) :
+    parseType ctx (getctypeC F.toTy []) = .ok F.toTy :=
+  getctype_roundtrip ctx F.toTy (wf_of_frag ctx F hleaf hlens)
+
+theorem getctype_decl_partial (ctx : Ctx) (F : FTy) (hleaf : WFLeaf ctx F.leaf) (hlens : F.LensOK)
     (k : Nat) (lens : List (Option Nat)) (hl : ∀ n, some n ∈ lens → n ≤ maxSsize) :
     parseType ctx (getctypeC F.toTy (declText k lens)) = .ok (applyDecl k lens F.toTy) :=
-  getctype_decl_F ctx F hleaf hlens k lens hl
+  getctype_decl_stars_brackets ctx F.toTy (wf_of_frag ctx F hleaf hlens) k lens hl
 
--- non-vacuity and what the statement says at concrete points
+-- non-vacuity and what the statements say at concrete points
 def exCtx : Ctx := { typedefs := [], aggs := [("s".toList, .struct, true)], enums := [], consts := [] }
-def exArr : FTy := .arr (.prim "int".toList) (some 3)
-example : WFLeaf exCtx exArr.leaf := WFLeaf.kwPrim ["int".toList] (by decide)
-example : exArr.LensOK := ⟨trivial, by intro n h; cases h; decide⟩
+def exInt : Ty := .prim "int".toList
+theorem exInt_wf : WF exCtx exInt := WF.leaf (.prim "int".toList) (WFLeaf.kwPrim ["int".toList] (by decide))
+def exArr : Ty := .arr exInt (some 3)
+theorem exArr_wf : WF exCtx exArr := WF.arr _ _ exInt_wf (by intro n h; cases h; decide)
+/-- the declarator `(*[4])(int, ...)`: array 4 of pointer to variadic function taking int -/
+def exD : Decl := .group 0 (.flat 1 [.arr (some 4)]) [.fn [exInt] true]
+example : dstr exD = "(*[4])(int, ...)".toList := by decide +kernel
+theorem exD_wf : DeclWF exCtx exD := by
+  refine ⟨⟨by decide, trivial⟩, Or.inl (by decide), ⟨?_, ?_, ?_, trivial⟩⟩
+  · intro A hA; simp only [List.mem_cons, List.not_mem_nil, or_false] at hA; subst hA; exact exInt_wf
+  · intro A hA; simp only [List.mem_cons, List.not_mem_nil, or_false] at hA; subst hA; rfl
+  · intro h; cases h.2
+example : getctypeC C07.exFn (dstr exD) =
+    "struct s *(*(*(*[4])(int, ...))(char *, int(*)(), ...))[3]".toList := by decide +kernel
+example : parseType C07.exCtx (getctypeC C07.exFn (dstr exD)) = .ok (exD.apply C07.exFn) :=
+  getctype_decl C07.exCtx C07.exFn C07.exFn_wf exD (by
+    refine ⟨⟨by decide, trivial⟩, Or.inl (by decide), ⟨?_, ?_, ?_, trivial⟩⟩
+    · intro A hA; simp only [List.mem_cons, List.not_mem_nil, or_false] at hA; subst hA; exact C07.exWFInt
+    · intro A hA; simp only [List.mem_cons, List.not_mem_nil, or_false] at hA; subst hA; rfl
+    · intro h; cases h.2)
 example : declText 1 [some 5] = "*[5]".toList := by decide
-example : getctypeC exArr.toTy (declText 1 [some 5]) = "int(*[5])[3]".toList := by decide
-example : applyDecl 1 [some 5] exArr.toTy = .arr (.ptr (.arr (.prim "int".toList) (some 3))) (some 5) := rfl
-example : parseType exCtx "int(*[5])[3]".toList =
-    .ok (.arr (.ptr (.arr (.prim "int".toList) (some 3))) (some 5)) :=
-  getctype_decl exCtx exArr (WFLeaf.kwPrim ["int".toList] (by decide))
-    ⟨trivial, by intro n h; cases h; decide⟩ 1 [some 5] (by intro n h; simp at h; subst h; decide)
+example : getctypeC exArr (declText 1 [some 5]) = "int(*[5])[3]".toList := by decide
+example : applyDecl 1 [some 5] exArr = .arr (.ptr (.arr exInt (some 3))) (some 5) := rfl
+example : parseType exCtx "int(*[5])[3]".toList = .ok (.arr (.ptr (.arr exInt (some 3))) (some 5)) :=
+  getctype_decl_stars_brackets exCtx exArr exArr_wf 1 [some 5] (by intro n h; simp at h; subst h; decide)
 
 /-- Without the parentheses the text denotes another type: `int *[3]` is an array of pointers,
 not a pointer to `int[3]` (why `add_paren` is needed). -/
